@@ -24,8 +24,22 @@ Definition lts_cancel_ok (c : Stream.case) : bool :=
   match c with
   | Stream.Sched _ _ rounds p _ =>
       negb p &&
+      (* no receive ever returns a bare context error, cancelled call or not: a handler that fails with
+         one (return codes -3, -4: the error value of some context of its own) is reported with the
+         matching status *)
+      forallb (fun t => match t with (_, InprocStream.CRecv, InprocStream.RCtx _) => false | _ => true end) (Stream.completed rounds) &&
       let '(before, after, code) := split_at_end rounds [] in
-      if code =? 0 then true
+      if code =? 0 then
+        match flat_map (fun ao => match ao with (_, InprocStream.HReturn c) => [c] | _ => [] end) (Stream.started rounds) with
+        | [c] => if (c =? -3) || (c =? -4)
+                 then forallb (fun t => match t with
+                                        | (_, InprocStream.CRecv, InprocStream.RStatus s) => (s =? (if c =? -3 then 1 else 4)) || (s =? 13)
+                                        | (_, InprocStream.CRecv, InprocStream.REOF) => false
+                                        | _ => true
+                                        end) (Stream.completed rounds)
+                 else true
+        | _ => true
+        end
       else
         let peeked := existsb (fun t => match t with (_, InprocStream.CHeader, _) => true | _ => false end) (Stream.completed before) in
         let ret := flat_map (fun ao => match ao with (_, InprocStream.HReturn c) => [c] | _ => [] end) (Stream.started rounds) in
@@ -36,7 +50,7 @@ Definition lts_cancel_ok (c : Stream.case) : bool :=
         let late_ops := skipn nb all in
         forallb (fun t => match t with
                           | (_, InprocStream.CRecv, InprocStream.RStatus s) =>
-                              (s =? code) || match ret with [c] => (s =? (if c =? -1 then 2 else if c =? -2 then code else c)) || (s =? 13) | _ => s =? 13 end
+                              (s =? code) || match ret with [c] => (s =? (if c =? -1 then 2 else if c =? -2 then code else if c =? -3 then 1 else if c =? -4 then 4 else c)) || (s =? 13) | _ => s =? 13 end
                           | (_, InprocStream.CRecv, InprocStream.RMsg _) => peeked
                           | (_, InprocStream.CRecv, InprocStream.REOF) => false
                           | (_, InprocStream.CRecv, _) => false
